@@ -39,6 +39,13 @@ def native_sweep(script, what, quick, thorough):
 
 
 REGISTRY = {
+    'C14': dict(module='contracts.C14', level='proof',
+                native=native_sweep('c14_history.py', 'sweep step == fresh run (every load kind, radii at the small-radius threshold), far/near order and repetition, compute twice, two processes with different hash seeds byte-identical (report and option file)', 12, 300),
+                undecided=['byte-identity of numpy/LAPACK/scipy results across processes is assumed (deterministic library functions)'],
+                assumptions=['numpy, LAPACK and scipy functions are deterministic functions of their arguments',
+                             'attribute names identify state (the inventory is by function and normalised target text)'],
+                trusted=['state inventory classification rules in contracts/C14.py (reviewed by hand once)',
+                         'call graph over-approximated by method name']),
     'C16': dict(module='contracts.C16', level='proof',
                 native=native_sweep('c16_points.py', 'near-field point count / coordinates / order for every count 1..100 per axis over a lattice of starts and steps (0.1, 0.05, negative, ...), far-field row count and order, numpy index axioms at small shapes', 15, 400),
                 undecided=[],
